@@ -19,7 +19,18 @@ pub broadcast axiom fn boundary_ends(b: Seq<u8>) ensures #[trigger] boundary(b, 
 // a Rust string is at most isize::MAX bytes long
 pub broadcast axiom fn len_bound(s: &Str) ensures #[trigger] bytes(s).len() <= usize::MAX;
 pub open spec fn pos_ok(b: Seq<u8>, i: int) -> bool { 0 <= i <= b.len() && boundary(b, i) }
-pub enum Primitive { Str(Str), Int(i32), Vector(Vec<Primitive>), Other(OtherV) }
+pub enum Primitive { Str(Str), Int(i32), Vector(Vec<Primitive>), Optional(Option<Box<Primitive>>), Other(OtherV) }
+// character-wise views a change may bring in: uninterpreted (NOT known to agree with byte positions)
+pub uninterp spec fn char_count(b: Seq<u8>) -> int;
+#[verifier::external_body] pub struct CharsV { x: usize }
+pub uninterp spec fn chars_of(c: CharsV) -> Seq<u8>;
+impl Str { #[verifier::external_body] pub fn chars(&self) -> (r: CharsV) ensures chars_of(r) == bytes(self) { unimplemented!() } }
+impl CharsV { #[verifier::external_body] pub fn count(self) -> (r: usize) ensures r == char_count(chars_of(self)) { unimplemented!() } }
+// str::find(&str): the byte position of the first occurrence
+pub open spec fn occurs_at(s: Seq<u8>, o: Seq<u8>, i: int) -> bool { 0 <= i && i + o.len() <= s.len() && s.subrange(i, i + o.len()) == o }
+#[verifier::external_body] pub fn str_find(s: &Str, o: &Str) -> (r: Option<usize>)
+    ensures r is Some ==> pos_ok(bytes(s), r->Some_0 as int) && occurs_at(bytes(s), bytes(o), r->Some_0 as int) && forall|j: int| 0 <= j < r->Some_0 ==> !occurs_at(bytes(s), bytes(o), j),
+            r is None ==> forall|j: int| !occurs_at(bytes(s), bytes(o), j) { unimplemented!() }
 pub struct Bridge;
 
 // ---- assumed std contracts (R8/R9)
@@ -63,7 +74,21 @@ pub open spec fn recv(a: Seq<Primitive>) -> bool { a.len() >= 1 && a[0] is Str }
 pub open spec fn int_arg(a: Seq<Primitive>, k: int) -> bool { a.len() > k && a[k] is Int }
 """
 
+SPEC += r"""
+#[verifier::external_body] pub fn str_rfind(s: &Str, o: &Str) -> (r: Option<usize>)
+    ensures r is Some ==> pos_ok(bytes(s), r->Some_0 as int) && occurs_at(bytes(s), bytes(o), r->Some_0 as int) && forall|j: int| j > r->Some_0 ==> !occurs_at(bytes(s), bytes(o), j),
+            r is None ==> forall|j: int| !occurs_at(bytes(s), bytes(o), j) { unimplemented!() }
+"""
+
 ARMS = {
+ "StrIndexOf": """requires recv(arguments@), arguments@.len() >= 2, arguments@[1] is Str
+    ensures ({ let s = bytes(&arguments@[0]->Str_0); let o = bytes(&arguments@[1]->Str_0);
+        // present: the position of the FIRST occurrence, in the unit every other position-taking method (substring, insert, delete, split) uses,
+        // so that s.substring(i, i + o.len()) == o ; absent: nil
+        &&& r is Ok ==> r->Ok_0.0 is Some && r->Ok_0.0->Some_0 is Optional
+        &&& (r is Ok && r->Ok_0.0->Some_0->Optional_0 is Some) ==> ({ let v = *r->Ok_0.0->Some_0->Optional_0->Some_0;
+                v is Int && occurs_at(s, o, v->Int_0 as int) && forall|j: int| 0 <= j < v->Int_0 ==> !occurs_at(s, o, j) })
+        &&& (r is Ok && r->Ok_0.0->Some_0->Optional_0 is None) ==> forall|j: int| !occurs_at(s, o, j) })""",
  "StrLen": """requires recv(arguments@)
     ensures ({ let s = bytes(&arguments@[0]->Str_0); (s.len() <= i32::MAX ==> r is Ok && r->Ok_0.0 == Some(Primitive::Int(s.len() as i32))) && (s.len() > i32::MAX ==> r is Err) })""",
  "StrSubstring": """requires recv(arguments@), int_arg(arguments@, 1), int_arg(arguments@, 2)
@@ -98,12 +123,17 @@ def rules():
         Rule("R7", "( * $v ) . try_into ( ) . with_context ( $$c ) ?", "i32_to_usize ( * $v ) ?", why="i32 -> usize conversion"),
         Rule("R7", "len . try_into ( ) . with_context ( $$c ) ?", "usize_to_i32 ( len ) ?", why="usize -> i32 conversion"),
         Rule("R7", "s . len ( ) . try_into ( ) . context ( $m ) ?", "usize_to_i32 ( str_len ( s ) ) ?", why="usize -> i32 conversion"),
+        Rule("R9", "s . rfind ( o )", "str_rfind ( s , o )", why="str::rfind: byte position of the last occurrence (assumed std contract)"),
+        Rule("R9", "s . find ( o )", "str_find ( s , o )", why="str::find: byte position of the first occurrence (assumed std contract)"),
+        Rule("R7", "start . try_into ( ) . with_context ( $$c ) ?", "usize_to_i32 ( start ) ?", why="usize -> i32 conversion"),
         Rule("R9", "let len = v . len ( ) ;", "let len = str_len ( v ) ;", why="str::len"),
         Rule("R9", "$s . get ( $a .. $b ) . with_context ( $$c ) ?", "opt_ctx ( str_get ( $s , $a , $b ) ) ?", why="str::get(range): None instead of a panic"),
         Rule("R9", "( s . get ( .. $$b ) , s . get ( $$a .. ) )", "( str_get_to ( s , $$b ) , str_get_from ( s , $$a ) )", why="str::get(range)"),
         Rule("R8", "s [ $a .. $b ]", "str_index ( s , $a , $b )", why="slice indexing with its panic precondition"),
         Rule("R8", "& s [ .. $b ]", "& str_index_to ( s , $b )", why="slice indexing with its panic precondition"),
         Rule("R8", "& s [ $a .. ]", "& str_index_from ( s , $a )", why="slice indexing with its panic precondition"),
+        Rule("R8", "s [ .. $b ]", "str_index_to ( s , $b )", why="slice indexing with its panic precondition"),
+        Rule("R8", "s [ $a .. ]", "str_index_from ( s , $a )", why="slice indexing with its panic precondition"),
         Rule("R1", "substring . to_owned ( )", "substring", why="&str::to_owned"),
         Rule("R1", "str_index ( $$a ) . to_owned ( )", "str_index ( $$a )", why="&str::to_owned"),
         Rule("R1", "original . clone ( )", "str_to_owned ( original )", why="String::clone"),
